@@ -1047,6 +1047,40 @@ func mpscSequential(init, max uint32) string {
 	return ""
 }
 
+// mpscHuge: a buffer whose maximum is too large to fill: the first 5000 offers are accepted (growth
+// steps included) and delivered in order, and the capacity is the maximum rounded up to a power of two.
+func mpscHuge(init, max uint32) (violation string) {
+	defer func() {
+		if r := recover(); r != nil {
+			violation = fmt.Sprintf("(initial %d, max %d): panic: %v", init, max, r)
+		}
+	}()
+	q := otter.VerifNewMPSC[mpscElem](init, max)
+	want := uint64(1)
+	for want < uint64(max) {
+		want <<= 1
+	}
+	if uint64(q.Capacity()) != want {
+		return fmt.Sprintf("(initial %d, max %d): capacity %d, expected %d", init, max, q.Capacity(), want)
+	}
+	const n = 5000
+	for i := 0; i < n; i++ {
+		if !q.TryPush(&mpscElem{P: 0, Seq: i}) {
+			return fmt.Sprintf("(initial %d, max %d): offer %d was refused, the capacity is %d", init, max, i, want)
+		}
+	}
+	for i := 0; i < n; i++ {
+		e := q.TryPop()
+		if e == nil || e.Seq != i {
+			return fmt.Sprintf("(initial %d, max %d): pop %d returned %v", init, max, i, e)
+		}
+	}
+	if q.TryPop() != nil {
+		return fmt.Sprintf("(initial %d, max %d): an extra element was popped", init, max)
+	}
+	return ""
+}
+
 // cacheOrder is the cache-level half of C16: with an executor that only queues its tasks the write
 // buffer fills up and writers fall back to applying their event themselves; every producer writes
 // increasing values to its own keys, so the Replacement notifications of each key must arrive in
@@ -1057,9 +1091,20 @@ func cacheOrder(seed uint64) (violation string, writes, notifications int64) {
 	var mu sync.Mutex
 	var queue []func()
 	var events []otter.DeletionEvent[int, int]
+	asyncExec := r.Chance(1, 2)
+	var ewg sync.WaitGroup
 	o := &otter.Options[int, int]{
 		MaximumSize: 100000,
 		Executor: func(fn func()) {
+			if asyncExec {
+				// (half of the cases) a pool that runs its tasks: maintenance passes start all the time
+				ewg.Add(1)
+				go func() {
+					defer ewg.Done()
+					fn()
+				}()
+				return
+			}
 			mu.Lock()
 			queue = append(queue, fn)
 			mu.Unlock()
@@ -1082,6 +1127,33 @@ func cacheOrder(seed uint64) (violation string, writes, notifications int64) {
 	}
 	keysPer := 1 + r.Intn(3)
 	var wg sync.WaitGroup
+	// every other public call that looks at the policies runs next to the producers: whoever consumes
+	// write events must do so as the single consumer (under the eviction lock)
+	var stopGetters atomic.Bool
+	var gwg sync.WaitGroup
+	for g := 0; g < 1+r.Intn(3); g++ {
+		gwg.Add(1)
+		go func(g int) {
+			defer gwg.Done()
+			for i := 0; !stopGetters.Load(); i++ {
+				switch (g + i) % 5 {
+				case 0:
+					c.GetMaximum()
+				case 1:
+					c.WeightedSize()
+				case 2:
+					c.EstimatedSize()
+				case 3:
+					for range c.Coldest() {
+						break
+					}
+				default:
+					c.SetMaximum(100000)
+				}
+				runtime.Gosched()
+			}
+		}(g)
+	}
 	for p := 0; p < producers; p++ {
 		wg.Add(1)
 		go func(p int) {
@@ -1093,6 +1165,9 @@ func cacheOrder(seed uint64) (violation string, writes, notifications int64) {
 		}(p)
 	}
 	wg.Wait()
+	stopGetters.Store(true)
+	gwg.Wait()
+	ewg.Wait()
 	// half of the cases: the cache is cleared while write events are still pending in the buffer (the
 	// executor has run nothing): the clear consumes them - applying them, not dropping them
 	cleared := r.Chance(1, 2)
@@ -1112,13 +1187,17 @@ func cacheOrder(seed uint64) (violation string, writes, notifications int64) {
 		mu.Unlock()
 		fn()
 	}
+	ewg.Wait()
+	c.CleanUp()
+	ewg.Wait()
 	last := map[int]int{}
 	count := map[int]int{}
 	invalidated := map[int]int{}
+	seenVal := map[[2]int]bool{}
 	for _, e := range events {
 		if cleared && e.Cause == otter.CauseInvalidation {
 			invalidated[e.Key]++
-			if e.Value <= last[e.Key] {
+			if !asyncExec && e.Value <= last[e.Key] {
 				return fmt.Sprintf("key %d: the value %d removed by InvalidateAll was reported although the later value %d had already been reported as replaced", e.Key, e.Value, last[e.Key]), int64(producers * per), int64(len(events))
 			}
 			continue
@@ -1126,10 +1205,16 @@ func cacheOrder(seed uint64) (violation string, writes, notifications int64) {
 		if e.Cause != otter.CauseReplacement {
 			return fmt.Sprintf("unexpected deletion event %+v", e), int64(producers * per), int64(len(events))
 		}
-		if e.Value <= last[e.Key] {
+		// (with the pool that runs every notification in a goroutine of its own the arrival order says
+		// nothing about the consumption order: only the counts are judged there)
+		if !asyncExec && e.Value <= last[e.Key] {
 			return fmt.Sprintf("key %d (one producer, values written in increasing order): the replacement of value %d was consumed after the replacement of value %d", e.Key, e.Value, last[e.Key]), int64(producers * per), int64(len(events))
 		}
-		last[e.Key] = e.Value
+		if seenVal[[2]int{e.Key, e.Value}] {
+			return fmt.Sprintf("key %d: the replacement of value %d was reported twice", e.Key, e.Value), int64(producers * per), int64(len(events))
+		}
+		seenVal[[2]int{e.Key, e.Value}] = true
+		last[e.Key] = max(last[e.Key], e.Value)
 		count[e.Key]++
 	}
 	for p := 0; p < producers; p++ {
@@ -1204,6 +1289,17 @@ func RunC16(col *core.Collector, tier, variant string, seed uint64, shard, nshar
 				if v := mpscSequential(init, max); v != "" {
 					col.Violation(core.Violation{Property: "C16", Signature: "mpsc-seq:" + sigText(v), Detail: v})
 				}
+			}
+		}
+	}
+	if shard == 2%nshards {
+		// maxima around 2^30..2^31 (the bound is computed in 64 bits from the rounded 32-bit maximum): the
+		// buffer cannot be filled, but the first growth steps must work and deliver in order
+		for _, pr := range [][2]uint32{{2, 1<<30 + 1}, {4, 1 << 31}, {64, 1<<31 - 1}, {2, 1<<30 - 1}, {4, 1 << 30}, {2, 1<<31 - 5}} {
+			col.Eval(1)
+			col.Count("huge_maximum_pairs", 1)
+			if v := mpscHuge(pr[0], pr[1]); v != "" {
+				col.Violation(core.Violation{Property: "C16", Signature: "mpsc-huge:" + sigText(v), Detail: v})
 			}
 		}
 	}
